@@ -29,6 +29,23 @@ type env struct {
 	vias      []string
 	rec       *Recorder
 	stop      int32 // set when the clients were force-closed: leave every loop
+
+	sharedMu    sync.Mutex
+	sharedLocks map[[2]int]*client.Lock // (connection, key epoch) -> ONE Lock object used by several goroutines like a sync.Mutex
+}
+
+// sharedLock: the Lock object that the goroutines of one connection share for one key epoch
+func (e *env) sharedLock(conn, ep int, mk func() *client.Lock) *client.Lock {
+	e.sharedMu.Lock()
+	defer e.sharedMu.Unlock()
+	if e.sharedLocks == nil {
+		e.sharedLocks = map[[2]int]*client.Lock{}
+	}
+	k := [2]int{conn, ep}
+	if e.sharedLocks[k] == nil {
+		e.sharedLocks[k] = mk()
+	}
+	return e.sharedLocks[k]
 }
 
 func (e *env) stopped() bool { return atomic.LoadInt32(&e.stop) != 0 }
@@ -86,6 +103,11 @@ func (e *env) do(tmpl Rec, call func() (*protocol.LockResultCommand, error)) *Re
 	res, err := call()
 	tret := e.rec.now()
 	code, es := resultOf(res, err)
+	if e.prim != "event" && err == nil && res != nil && res.Result != 0 {
+		// the caller of a primitive goes by the ERROR: (result, nil) is the API saying "acquired" / "released", whatever the result byte
+		// inside says — the history records what the caller was told (the lock-shaped primitives return an error for every non-zero result)
+		code, es = resOK, fmt.Sprintf("api returned nil error with result byte %d", res.Result)
+	}
 	e.rec.end(rec, tret, code, es)
 	return rec
 }
@@ -189,11 +211,20 @@ func (e *env) runLock(g int) {
 	ep := -1
 	var l *client.Lock
 	var ks string
+	shared := !e.cutMode && e.G >= 4*e.K && (g/e.K)%2 == 1
 	for e.running() {
 		if cur := e.epoch(); cur != ep {
 			ep = cur
 			k := e.key(ep)
-			l, ks = db.Lock(k, e.timeout, e.expried), keyStr(k)
+			ks = keyStr(k)
+			if shared {
+				// half of the goroutines of a connection use ONE Lock object per key like a sync.Mutex: a second Lock() on an object
+				// that holds the key is a LOCK under the holder's own LockId, which the server refuses (LOCKED_ERROR) — the object
+				// must report that as a failure
+				l = e.sharedLock(g%e.K, ep, func() *client.Lock { return db.Lock(k, e.timeout, e.expried) })
+			} else {
+				l = db.Lock(k, e.timeout, e.expried)
+			}
 		}
 		t := Rec{G: g, Key: ks, Round: ep}
 		lk, ul := pickAPI(rng, l)
@@ -207,7 +238,11 @@ func (e *env) runLock(g int) {
 				e.cleanup(t, ul)
 			}
 		case a.Result == resTransport:
-			e.cleanup(t, ul) // we do not know whether it was granted
+			if !shared { // on a shared object an unlock "to be safe" could release the hold of the goroutine that owns it
+				e.cleanup(t, ul) // we do not know whether it was granted
+			} else {
+				e.backoff()
+			}
 		default:
 			e.refused()
 		}
